@@ -25,7 +25,7 @@ def main(tier, seed, only=None):
     extra = {"smt": smt}
     rc_k, results = vdriver.check_kani("C20", tier, seed, only=only, extra_results=extra)
     # merge verdicts
-    ev_path = os.path.join(VERIF, "evidence", "C20.json")
+    ev_path = os.path.join(vdriver.EVID_DIR, "C20.json")
     ev = json.load(open(ev_path))
     cov = ev["coverage"]
     ob = smt.get("obligations", 0)
@@ -48,9 +48,9 @@ def main(tier, seed, only=None):
     json.dump(ev, open(ev_path, "w"), indent=1)
     rc = rc_k
     if viol:
-        os.makedirs(os.path.join(VERIF, "replays", "C20"), exist_ok=True)
+        os.makedirs(os.path.join(vdriver.REPLAY_DIR, "C20"), exist_ok=True)
         for v in viol:
-            rp = os.path.join(VERIF, "replays", "C20", v["id"] + ".json")
+            rp = os.path.join(vdriver.REPLAY_DIR, "C20", v["id"] + ".json")
             json.dump(v, open(rp, "w"), indent=1)
             log(f"VIOLATION property=C20 replay={rp}")
             log(f"  {v['what']}: input {v.get('input')} (native replay: {v.get('native')})")
